@@ -1141,7 +1141,9 @@ class Mps(MatrixProduct):
             self.evolve_config.tdvp_cmf_midpoint = False
             self.evolve_config.tdvp_cmf_c_trapz = False
             self.evolve_config.adaptive = False
-            environ_mps = self.evolve(mpo, evolve_dt / 2)
+            # `evolve_dt` is real here even for imaginary time evolution
+            half_dt = -1j * evolve_dt / 2 if imag_time else evolve_dt / 2
+            environ_mps = self.evolve(mpo, half_dt, normalize=False)
             self.evolve_config = orig_config
         else:
             # mps at t=0 as environment
